@@ -587,6 +587,42 @@ pub fn parse_j(text: &str) -> J {
     conv(&serde_json::from_str(text).expect("parse_j: fixed text"))
 }
 
+/// unions of RELATED objects: every pair and triple of eight objects whose one member ranges over shapes that cover
+/// each other in part (Number, Option<Number>, Null, OneOf[Null], OneOf[Option<Number>], OneOf[Number | Option<Number>],
+/// OneOf[Number | Null]; and the empty object), as the variants of one OneOf of either flag — the subset relation is
+/// neither antisymmetric nor transitive on such variants
+pub fn related_unions() -> Vec<JsonShape> {
+    let n = JsonShape::Number { optional: false };
+    let on = JsonShape::Number { optional: true };
+    let vals = vec![
+        n.clone(),
+        on.clone(),
+        JsonShape::Null,
+        one_of(vec![JsonShape::Null], false),
+        one_of(vec![on.clone()], false),
+        one_of(vec![n.clone(), on.clone()], false),
+        one_of(vec![n.clone(), JsonShape::Null], false),
+    ];
+    let mut objs: Vec<JsonShape> = vals.iter().map(|v| obj(vec![("id", v.clone())], false)).collect();
+    objs.push(obj(vec![], false));
+    let mut out = Vec::new();
+    for i in 0..objs.len() {
+        for j in i + 1..objs.len() {
+            for f in [false, true] {
+                out.push(one_of(vec![objs[i].clone(), objs[j].clone()], f));
+            }
+            for k in j + 1..objs.len() {
+                for f in [false, true] {
+                    out.push(one_of(vec![objs[i].clone(), objs[j].clone(), objs[k].clone()], f));
+                }
+            }
+        }
+    }
+    let nested: Vec<JsonShape> = out.iter().take(40).map(|u| arr(u.clone(), false)).collect();
+    out.extend(nested);
+    out
+}
+
 /// CHAIN WORDS: shapes that are chains of at most three one-slot containers (array, one-slot tuple, one-member object,
 /// one-variant OneOf, OneOf beside Null — each with either flag) around a leaf: 2 700 shapes in which every
 /// combination of kinds and flags occurs at every one of three levels
@@ -711,7 +747,20 @@ pub fn chain_wrapped(ctor: usize, opt: bool, depth: usize, leaf: JsonShape, wrap
         s = match wrap {
             0 => inner,
             1 => one_of(vec![inner, JsonShape::String { optional: false }], false),
-            _ => one_of(vec![inner, JsonShape::Null], false),
+            2 => one_of(vec![inner, JsonShape::Null], false),
+            // beside a sibling container of the same kind (another member name / element type) and Null
+            _ => one_of(
+                vec![
+                    inner,
+                    match ctor {
+                        0 => arr(JsonShape::String { optional: false }, false),
+                        1 => obj(vec![("b", JsonShape::Number { optional: false })], false),
+                        _ => tup(vec![JsonShape::String { optional: false }, JsonShape::Null], false),
+                    },
+                    JsonShape::Null,
+                ],
+                false,
+            ),
         };
     }
     s
